@@ -153,6 +153,8 @@ func exec(op string) (res string) {
 		return execFirst(op)
 	case "psess":
 		return execPsess(op)
+	case "csess":
+		return execCsess(op)
 	}
 	return "bad-op"
 }
@@ -560,6 +562,9 @@ func main() {
 		extra[k] = v
 	}
 	for k, v := range psessTier(r, out, tier) {
+		extra[k] = v
+	}
+	for k, v := range csessTier(r, out, tier) {
 		extra[k] = v
 	}
 	out.Close(extra)
